@@ -209,7 +209,9 @@ func checkLookupBody(p *Prog, r *Report, clause string) {
 					}
 				}
 				isEmbedded := rt.Op == "deref" && rt.Args[0].Op == "call" && strings.HasSuffix(rt.Args[0].Name, "VerificationRelationship).GetVerificationMethod")
-				byID := rt.Contains(func(x *Term) bool { return x.Op == "call" && strings.HasSuffix(x.Name, "DIDDocument).VerificationMethodByID") })
+				byID := rt.Contains(func(x *Term) bool {
+					return x.Op == "call" && strings.HasSuffix(x.Name, "DIDDocument).VerificationMethodByID")
+				})
 				okSrc := false
 				whySrc := "returned method " + rt.String() + " is neither the relationship's embedded method nor a by-id lookup"
 				switch {
